@@ -8,14 +8,21 @@
 (*   Compile      :  chooses calibration values, noises, gate threshold    *)
 (*                   (the definition is valid by construction; refused     *)
 (*                   definitions are the business of Definition.tla)       *)
-(*   run          :  ModelEval JacEval SensEval SetEstimate Predict        *)
-(*                   UpdateAccept UpdateReject                             *)
+(*   run          :  ModelEval JacEval SensEval (and the *Near pairs: two   *)
+(*                   evaluations in a row at neighbouring points)          *)
+(*                   SetEstimate Predict UpdateAccept UpdateReject         *)
+(*                   DefaultEstimate TransformRow (scikit-learn adapter)   *)
 (*   Emit         :  the behaviour is handed to the replay harness.        *)
 (*                                                                         *)
 (* Every run action records in `steps` its arguments and the abstract      *)
 (* state the specification says must result (exact rationals, by name).    *)
 (* The replay harness steps the real Python objects and the real generated *)
 (* C++ through the same calls and compares after every call.               *)
+(*                                                                         *)
+(* Theorems checked as invariants on every visited state: InvCovValid,     *)
+(* InvUpdate, InvSPD, InvReject, InvNisNonNeg (filter algebra), InvRescale *)
+(* and InvRescaleControl (units of a reading / a control do not matter),   *)
+(* InvRenaming (names, hence layouts, do not matter).                      *)
 (***************************************************************************)
 EXTENDS FilterMath, Json
 
@@ -23,7 +30,8 @@ CONSTANTS
   Shapes,      \* set of [nS, nC, nK : Nat, sens : Seq(Nat)]  (sens = readings per sensor)
   SymNames,    \* pool of symbol names to draw from
   SensorNames, ReadingNames,
-  Ops,         \* subset of {"add","sub","mul","div","neg","pow2","pow3","sin","cos","exp","tanh","atan","sqrt1","log1"}
+  Ops,         \* subset of BinOps \cup UnaryOps below (arithmetic, powers, dt products, |.|, elementary and bounded
+               \* inverse-trigonometric functions, a user-supplied function)
   Consts,      \* sequence of rational constants available as leaves
   MinGrow, MaxGrow,
   NPoints,     \* number of evaluation points
